@@ -167,18 +167,22 @@ func (core *JApiCore) processJApiProject() *jerr.JApiError {
 	if je := core.scanProject(); je != nil {
 		return je
 	}
+	verifStage(core, "scan")
 
 	if je := core.compileCore(); je != nil {
 		return je
 	}
+	verifStage(core, "compileCore")
 
 	if je := core.buildCatalog(); je != nil {
 		return je
 	}
+	verifStage(core, "buildCatalog")
 
 	if je := core.compileCatalog(); je != nil {
 		return je
 	}
+	verifStage(core, "compileCatalog")
 
 	return core.validateCatalog()
 }
